@@ -512,6 +512,21 @@ impl<'tcx> Extractor<'tcx> {
                 _ => {}
             }
         }
+        self.body_core(body, typing_env, &mut v);
+        if matches!(kind, DefKind::Fn | DefKind::AssocFn | DefKind::Closure) {
+            let proms = tcx.promoted_mir(def_id);
+            let mut pv = Vec::new();
+            for pb in proms.iter() {
+                let mut pvv: Vec<(&str, J)> = Vec::new();
+                self.body_core(pb, typing_env, &mut pvv);
+                pv.push(obj(pvv));
+            }
+            v.push(("promoted", J::Arr(pv)));
+        }
+        obj(v)
+    }
+
+    fn body_core(&mut self, body: &Body<'tcx>, typing_env: TypingEnv<'tcx>, v: &mut Vec<(&'static str, J)>) {
         // locals
         let mut locals = Vec::new();
         for (_l, decl) in body.local_decls.iter_enumerated() {
@@ -569,7 +584,6 @@ impl<'tcx> Extractor<'tcx> {
             ]));
         }
         v.push(("blocks", J::Arr(blocks)));
-        obj(v)
     }
 
     fn place(&mut self, body: &Body<'tcx>, place: Place<'tcx>) -> J {
@@ -646,8 +660,9 @@ impl<'tcx> Extractor<'tcx> {
         // named constant?
         if let Const::Unevaluated(uv, _) = c.const_ {
             v.push(("named", jstr(self.def_pretty(uv.def))));
-            if uv.promoted.is_some() {
-                v.push(("promoted", J::Bool(true)));
+            if let Some(p) = uv.promoted {
+                v.push(("promoted", jnum(p.as_usize())));
+                v.push(("promoted_of", jstr(self.def_key(uv.def))));
             }
         }
         let is_scalar = matches!(
